@@ -442,6 +442,21 @@ func encodePathAttrs(b *bytes.Buffer, asn uint32, ibgp, fbasn bool, nextHop net.
 }
 
 func sendWithdraw(w io.Writer, prefixes []*net.IPNet) error {
+	// A BGP message is at most 4096 bytes long (RFC 4271, section 4): a list of withdrawals that
+	// does not fit in one message goes out in several. 23 = header (19) + withdrawn routes length (2)
+	// + total path attribute length (2).
+	size := 0
+	for i, p := range prefixes {
+		o, _ := p.Mask.Size()
+		size += 1 + (o+7)/8
+		if size > 4096-23 {
+			if err := sendWithdraw(w, prefixes[:i]); err != nil {
+				return err
+			}
+			return sendWithdraw(w, prefixes[i:])
+		}
+	}
+
 	var b bytes.Buffer
 
 	hdr := struct {
